@@ -724,18 +724,22 @@ pub fn touching_family(ch: &mut Chooser, d: &Delims, n: &Names) -> String {
     let c = gen::close_tag(d, &n.tl);
     let child_kind = *ch.pick(&[Kind::Expired, Kind::Future]);
     let parent_kind = *ch.pick(&[Kind::Expired, Kind::Future]);
-    let tind = ["", "  "][ch.choose(2)];
+    // in front of the parent's opening tag: nothing, indentation, or indented code
+    let tind = ["", "  ", " x(); "][ch.choose(3)];
+    // behind a child's closing tag on a wrapper line: ASCII code or a multi-byte character
+    let after_child = [" legacy2();", "あ"][ch.choose(2)];
     let mut lines: Vec<String> = vec![];
     if ch.flag() {
         lines.push("head();".into());
     }
     lines.push(format!("{tind}{}", o(parent_kind, true)));
+    let tind = if tind.trim().is_empty() { tind } else { "" };
     // where the child sits: 0 inline on the opening wrapper line, 1 opening tag on the opening
     // wrapper line and closing tag on a body line, 2 inline on the closing wrapper line,
     // 3 from the opening wrapper line to the closing wrapper line, 4 on the parent's tag line
     let place = ch.choose(5);
     match place {
-        0 => lines.push(format!("{tind}if (a) {{ {} legacy(); {}", o(child_kind, false), c)),
+        0 => lines.push(format!("{tind}if (a) {{ {} legacy(); {}{after_child}", o(child_kind, false), c)),
         1 | 3 => lines.push(format!("{tind}if (a) {{ {}", o(child_kind, false))),
         4 => {
             let l = lines.pop().unwrap();
@@ -749,7 +753,7 @@ pub fn touching_family(ch: &mut Chooser, d: &Delims, n: &Names) -> String {
         lines.push(format!("{tind}    body{i}();"));
     }
     if place == 1 {
-        lines.push(format!("{tind}    {c}"));
+        lines.push(format!("{tind}    {c}{after_child}"));
     }
     match place {
         2 => lines.push(format!("{tind}}} {} tail(); {}", o(child_kind, false), c)),
